@@ -220,3 +220,20 @@ def expanded_guards(fn: Fn, ctx: Ctx) -> List[Atom]:
     for e, pol in ctx.guards:
         out += atoms(effective_test(fn, e), pol)
     return out
+
+
+def conditional_defs(fn: Fn, is_target: Callable[[ast.AST], bool]) -> List[Tuple[Site, ast.AST, List[Atom]]]:
+    """(site, value, facts) for every way `fn` defines a target: one entry per plain assignment (facts = its guards, named
+    conditions looked through) and two per `t = a if c else b` (the guards plus c / not c).  `if c: t = a else: t = b` and
+    the conditional expression are the same definition; rules over "what is t when ..." read both through this."""
+    out = []
+    for s in sites(fn):
+        n = s.node
+        if isinstance(n, ast.Assign) and len(n.targets) == 1 and is_target(n.targets[0]):
+            g = expanded_guards(fn, s.ctx)
+            if isinstance(n.value, ast.IfExp):
+                out.append((s, n.value.body, g + atoms(n.value.test, True)))
+                out.append((s, n.value.orelse, g + atoms(n.value.test, False)))
+            else:
+                out.append((s, n.value, g))
+    return out
